@@ -8,7 +8,8 @@ be the reference line; UnmarshalSAM of the line must format to the identical lin
 narrowed aux types the reference gives and project to equal field values; the record read
 back from a BAM file must format to the same line.  sam.Reader inputs with LF/CRLF line
 ends, with/without header and with/without a final newline must give every line as one
-record, then io.EOF.  All judged by TLC (CodecTrace)."""
+record, then io.EOF; whole files go through sam.Writer (text = header text + one line per record)
+and back through sam.Reader.  All judged by TLC (CodecTrace)."""
 LEVEL = "exploration"
 TRACE_CFG = {"CodecTrace": "CodecTrace.cfg"}
 
